@@ -82,6 +82,7 @@ type FrameSpec struct {
 	Key        string
 	Props      []string
 	Allows     []string // field patterns that may be written on pre-existing objects
+	Denies     []string // if set: only writes matching these patterns (and not Allows) are violations
 	ResultFresh []string // link fields through which the result must reach only fresh objects
 	NoGlobals  bool
 	NoUnsync   bool     // every write to a pre-existing object must be synchronised (race frame)
@@ -246,6 +247,12 @@ func (cs *ContractSet) LoadFile(file string) error {
 				for _, f := range strings.Split(rest, ",") {
 					if f = strings.TrimSpace(f); f != "" {
 						curFrame.Allows = append(curFrame.Allows, f)
+					}
+				}
+			case "denies":
+				for _, f := range strings.Split(rest, ",") {
+					if f = strings.TrimSpace(f); f != "" {
+						curFrame.Denies = append(curFrame.Denies, f)
 					}
 				}
 			case "result-fresh":
